@@ -12,5 +12,5 @@ s = open(p).read()
 assert s.count(old) >= 1, "anchor text not found"
 open(p, "w").write(s.replace(old, new, 1))
 PY
-cd /verif; VERIF_REPO="$d" python3-vt -m pyvc.check "$@" || true
+cd /verif; VERIF_EVIDENCE_DIR="$d/evidence" VERIF_REPO="$d" python3-vt -m pyvc.check "$@" || true
 rm -rf "$d"
